@@ -434,6 +434,7 @@ pub fn block_for_gc(tls: VMMutatorThread) {
     }
     g.parked -= 1;
     drop(g);
+    crate::prog::on_block_for_gc_return(idx);
     emit(EV_BLOCK_RETURN, idx as u64, 0, 0);
 }
 
